@@ -47,9 +47,11 @@ OwnedInputs(DD, s, c) ==
         /\ LET b == CtxBase(DD, <<n[1], n[2]>>) IN
            b = s \/ (c \in ENames(DD, b, "cells") /\ Definer(DD, b, "cells", c) = s)}
 
+\* (the copies that derived the cells from s before the edit, and -- when the edit turns a
+\*  derived cells of s into an override -- the copies that derive it from s afterwards)
 SetCellsField(DD, s, c, rec) ==
-    [DD EXCEPT !.cells[s] = Upd(@, c, rec),
-               !.inp = Drop(@, OwnedInputs(DD, s, c))]
+    LET D1 == [DD EXCEPT !.cells[s] = Upd(@, c, rec)] IN
+    [D1 EXCEPT !.inp = Drop(@, OwnedInputs(DD, s, c) \cup OwnedInputs(D1, s, c))]
 
 ReplacePrefix(p, old, new) ==
     IF IsPrefix(old, p) THEN new \o SubSeq(p, Len(old) + 1, Len(p)) ELSE p
@@ -117,7 +119,7 @@ DAfterOK(e) ==
             AdoptInputs([D EXCEPT !.sp = @ \cup {e.p},
                                   !.bases = Upd(@, e.p, Opt(e, "bases", <<>>)),
                                   !.cells = Upd(@, e.p, <<>>),
-                                  !.refs  = Upd(@, e.p, <<>>),
+                                  !.refs  = Upd(@, e.p, IF "refs" \in DOMAIN e THEN e.refs ELSE <<>>),
                                   !.span  = Upd(@, e.p, 0)], e)
       [] e.op = "del_space" ->
             LET gone == Subtree(D, e.p)
